@@ -1,5 +1,6 @@
 import VermouthModel.C06
 import VermouthModel.C06_Ismags
+import Std.Data.HashMap
 open Proto Iso C06
 
 def nodeOf (t : Tok) : Option (Int × Int) := do
@@ -45,6 +46,40 @@ def answerTIso (edgeNone : Bool) (g sg : Graph) (C : List (Int × Int)) : String
 def answerTLcs (g sg : Graph) (C : List (Int × Int)) : String :=
   encList ((sortMaps ((C06I.largestCommonSubgraph g sg C).map (alongPattern sg))).map encPartial)
 
+/-! the transcription run with the choices RECORDED from the real run (yield SEQUENCES are compared) -/
+
+/-- key of a search node: number of mapped nodes, the mapping sorted by pattern node, the nodes left to map sorted -/
+def nodeKey (mapping : Map) (left : List Int) : List Int :=
+  let ms := C06I.sortBy (fun (a b : Int × Int) => a.1 ≤ b.1) mapping
+  (Int.ofNat mapping.length :: ms.flatMap fun p => [p.1, p.2]) ++ C06I.sortInts left
+
+/-- a record `[mapping, left, sgn]`, or `[mapping, sgn]` when the nodes left are the complement of the mapping
+(find_isomorphisms: `to_be_mapped` is always the whole pattern) -/
+def recordOf (t : Tok) : Option (List Int × Int) := do
+  match ← t.list? with
+  | [m, l, s] => pure (nodeKey (← pairsOf m) (← ints? l), ← s.int?)
+  | [m, s] => pure (nodeKey (← pairsOf m) [], ← s.int?)
+  | _ => none
+
+/-- not a node key of any generated graph: a refused choice makes `_map_nodes` yield nothing below it -/
+def refused : Int := -1000003
+
+/-- the node the real code started `_map_nodes` with at this search node - accepted only if it is a
+possible result of the code's `min(..)` on the model's candidate table (`legalChoice`) -/
+def pickRecorded (withLeft : Bool) (table : Std.HashMap (List Int) Int) (mapping : Map) (c : C06I.Cands)
+    (left : List Int) : Int :=
+  match table.get? (nodeKey mapping (if withLeft then left else [])) with
+  | some s => if C06I.legalChoice c left s then s else refused
+  | none => refused
+
+def answerQIso (edgeNone : Bool) (g sg : Graph) (C : List (Int × Int)) (recs : List (List Int × Int)) : String :=
+  let table := Std.HashMap.ofList recs
+  encList (((C06I.findIsomorphismsWith (pickRecorded false table) edgeNone g sg C).map (alongPattern sg)).map encTotal)
+
+def answerQLcs (g sg : Graph) (C : List (Int × Int)) (recs : List (List Int × Int)) : String :=
+  let table := Std.HashMap.ofList recs
+  encList (((C06I.largestCommonSubgraphWith (pickRecorded true table) g sg C).map (alongPattern sg)).map encPartial)
+
 def answerTCons (cosets : List (Int × List Int)) : String :=
   encList (((C06I.makeConstraints cosets).mergeSort fun a b => a.1 < b.1 || (a.1 == b.1 && a.2 ≤ b.2)).map
     fun p => encList [encInt p.1, encInt p.2])
@@ -73,6 +108,10 @@ def handle (_ : Unit) (toks : List Tok) : Unit × String :=
         pure (answerTIso (en != 0) (← graphOf gn ge) (← graphOf sn se) (← pairsOf c))
     | [Tok.str "tlcs", gn, ge, sn, se, c] => do
         pure (answerTLcs (← graphOf gn ge) (← graphOf sn se) (← pairsOf c))
+    | [Tok.str "qiso", Tok.int en, gn, ge, sn, se, c, recs] => do
+        pure (answerQIso (en != 0) (← graphOf gn ge) (← graphOf sn se) (← pairsOf c) (← (← recs.list?).mapM recordOf))
+    | [Tok.str "qlcs", gn, ge, sn, se, c, recs] => do
+        pure (answerQLcs (← graphOf gn ge) (← graphOf sn se) (← pairsOf c) (← (← recs.list?).mapM recordOf))
     | [Tok.str "tvalid", sn, se, c] => do
         pure (encBool (C06I.constraintsValidB (← graphOf sn se) (← pairsOf c)))
     | [Tok.str "tcons", cs] => do
